@@ -193,6 +193,14 @@ func IdByte(c byte) bool {
 	return Or(And(c >= '0', c <= '9'), And(c >= 'a', c <= 'z'))
 }
 
+// OnSortSlice registers f to be called with the slice right after the next sort.Slice
+// has sorted it (executor only; a no-op natively, where the harness observes the effect
+// of the whole function instead).
+func OnSortSlice(f func(sorted any)) {}
+
+// EndPath ends the current path normally (executor only; natively a no-op).
+func EndPath() {}
+
 // Debug prints values while a harness is being developed (no-op natively).
 func Debug(label string, v ...any) {}
 
